@@ -586,3 +586,151 @@ theorem nextOpt_vs_scan (fuel : Nat) (r : Reader) : FastOk fuel r (nextOpt fuel 
     | some c => simp only; exact nextOptAt_ok fuel r p c hpre hg
 
 end Jomini.TextReader
+
+namespace Jomini.TextReader
+open Jomini Jomini.TextReader.Spec Jomini.TextReader.Swar
+
+/-! ### the whole reader (fast path in play) -/
+
+/-- related to the remaining input `d`, or one further because the fast path swallowed the single space that
+followed an unquoted scalar -/
+def RelQ (r : Reader) (pos : Nat) (bom : Bom) (d : Bytes) : Prop :=
+  Rel r pos bom d ∨ ∃ tl, d = 32 :: tl ∧ Rel r (pos + 1) bom tl
+
+/-- `Out` with the quirk allowed in the reader that is left behind -/
+def OutQ (res : Res (Option Token)) (pos : Nat) (bom : Bom) (d : Bytes) : Prop :=
+  match specStep (pos == 0) bom d with
+  | some (.tok adv t b') => ∃ r', res = .ok r' (some t) ∧ RelQ r' (pos + adv) b' (d.drop adv) ∧ adv ≤ d.length
+  | some (.end_ b') => ∃ r', res = .ok r' none ∧ Rel r' (pos + d.length) b' []
+  | some (.eof a _) => ∃ r', res = .err r' .eof ∧ r'.position = pos + a
+  | none => True
+
+theorem Out.toQ {res : Res (Option Token)} {pos : Nat} {bom : Bom} {d : Bytes} (h : Out res pos bom d) :
+    OutQ res pos bom d := by
+  unfold Out at h; unfold OutQ
+  cases hs : specStep (pos == 0) bom d with
+  | none => simp
+  | some st =>
+    rw [hs] at h
+    cases st with
+    | tok adv t b' => obtain ⟨r', h1, h2, h3⟩ := h; exact ⟨r', h1, Or.inl h2, h3⟩
+    | end_ b' => exact h
+    | eof a b' => exact h
+
+/-- one swallowed space in front does not matter -/
+theorem OutQ_space {res : Res (Option Token)} {pos : Nat} {bom : Bom} {tl : Bytes}
+    (h : OutQ res (pos + 1) bom tl) : OutQ res pos bom (32 :: tl) := by
+  have hs : Skips (pos == 0) [32] 0 bom bom := .blank (by decide) (.nil _ _)
+  have hp : (pos + 1 == 0) = false := by simp
+  have hsp := spec_skip hs (by simp) tl
+  unfold OutQ at h ⊢
+  rw [hp] at h
+  simp only [List.singleton_append, List.length_singleton] at hsp
+  rw [hsp]
+  cases hst : specStep false bom tl with
+  | none => simp
+  | some st =>
+    rw [hst] at h
+    cases st with
+    | tok adv t b' =>
+      simp only [Option.map_some, shiftStep] at h ⊢
+      obtain ⟨r', h1, h2, h3⟩ := h
+      refine ⟨r', h1, ?_, by simp; omega⟩
+      have e1 : pos + (adv + 1) = pos + 1 + adv := by omega
+      have e2 : (32 :: tl).drop (adv + 1) = tl.drop adv := by simp
+      rw [e1, e2]; exact h2
+    | end_ b' =>
+      simp only [Option.map_some, shiftStep] at h ⊢
+      obtain ⟨r', h1, h2⟩ := h
+      refine ⟨r', h1, ?_⟩
+      have e1 : pos + (32 :: tl).length = pos + 1 + tl.length := by simp; omega
+      rw [e1]; exact h2
+    | eof a b' =>
+      simp only [Option.map_some, shiftStep] at h ⊢
+      obtain ⟨r', h1, h2⟩ := h
+      exact ⟨r', h1, by rw [h2]; omega⟩
+
+/-- **one call of `next`, fast path in play, every fault-free schedule** -/
+theorem nextOpt_spec (r : Reader) (pos : Nat) (bom : Bom) (d : Bytes) (fuel : Nat)
+    (hrel : Rel r pos bom d) (hfuel : 2 * r.src.rest.length + 4 ≤ fuel) :
+    OutQ (nextOpt fuel r) pos bom d := by
+  rcases nextOpt_vs_scan fuel r with h | ⟨adv, t, r', hscan, hres, hadv⟩
+  · rw [h]; exact (run_fallback_spec _ r pos bom d fuel rfl hrel hfuel).toQ
+  · rw [hrel.pos, hrel.bom] at hscan
+    have hd : d = r.win ++ r.src.rest := hrel.data.symm
+    have hstab := fbLoop_stable r.src.rest hscan
+    rw [← hd] at hstab
+    unfold OutQ specStep
+    rw [hstab]
+    simp only [interp]
+    rcases hadv with ha | ⟨h32, ha⟩
+    · have hk : adv ≤ r.win.length := by
+        unfold TextReader.advance at ha; split at ha
+        · assumption
+        · simp at ha
+      obtain ⟨r'', ha', hrel', _, _, _⟩ := hrel.advance adv hk
+      rw [ha] at ha'; simp only [Option.some.injEq] at ha'; subst ha'
+      exact ⟨r', hres, Or.inl hrel', by rw [hd]; simp; omega⟩
+    · have hk : adv + 1 ≤ r.win.length := by
+        unfold TextReader.advance at ha; split at ha
+        · assumption
+        · simp at ha
+      obtain ⟨r'', ha', hrel', _, _, _⟩ := hrel.advance (adv + 1) hk
+      rw [ha] at ha'; simp only [Option.some.injEq] at ha'; subst ha'
+      refine ⟨r', hres, Or.inr ⟨d.drop (adv + 1), ?_, by
+        have : pos + adv + 1 = pos + (adv + 1) := by omega
+        rw [this]; exact hrel'⟩, by rw [hd]; simp; omega⟩
+      have h1 : d.drop adv = (r.win.drop adv) ++ r.src.rest := by
+        rw [hd, List.drop_append_of_le_length (by omega)]
+      rw [h1, drop_of_getElem? h32]
+      simp only [List.cons_append, List.cons.injEq, true_and]
+      rw [hd, List.drop_append_of_le_length hk]
+
+theorem nextOpt_specQ (r : Reader) (pos : Nat) (bom : Bom) (d : Bytes) (fuel : Nat)
+    (hrel : RelQ r pos bom d) (hfuel : 2 * d.length + 4 ≤ fuel) :
+    OutQ (nextOpt fuel r) pos bom d := by
+  rcases hrel with h | ⟨tl, rfl, h⟩
+  · exact nextOpt_spec r pos bom d fuel h (by have := h.rest_le; omega)
+  · exact OutQ_space (nextOpt_spec r (pos + 1) bom tl fuel h (by have := h.rest_le; simp at hfuel; omega))
+
+theorem lexAll_agree (n : Nat) : ∀ (r1 r2 : Reader) (pos : Nat) (bom : Bom) (d : Bytes) (f1 f2 : Nat) (acc : List Token),
+    RelQ r1 pos bom d → RelQ r2 pos bom d → 2 * d.length + 4 ≤ f1 → 2 * d.length + 4 ≤ f2 →
+    (lexAll f1 n r1 acc).toks = (lexAll f2 n r2 acc).toks ∧ (lexAll f1 n r1 acc).out = (lexAll f2 n r2 acc).out ∧
+    ((lexAll f1 n r1 acc).out = .end_ →
+      (lexAll f1 n r1 acc).final.position = pos + d.length ∧ (lexAll f2 n r2 acc).final.position = pos + d.length) := by
+  induction n with
+  | zero => intro r1 r2 pos bom d f1 f2 acc _ _ _ _; simp [lexAll]
+  | succ n ih =>
+    intro r1 r2 pos bom d f1 f2 acc h1 h2 hf1 hf2
+    have o1 := nextOpt_specQ r1 pos bom d f1 h1 hf1
+    have o2 := nextOpt_specQ r2 pos bom d f2 h2 hf2
+    unfold OutQ at o1 o2
+    have hsome := specStep_isSome (pos == 0) bom d
+    cases hsp : specStep (pos == 0) bom d with
+    | none => rw [hsp] at hsome; simp at hsome
+    | some st =>
+      rw [hsp] at o1 o2
+      cases st with
+      | tok adv t b' =>
+        obtain ⟨r1', e1, hr1, hle⟩ := o1
+        obtain ⟨r2', e2, hr2, _⟩ := o2
+        simp only [lexAll, next, e1, e2]
+        have hl : (d.drop adv).length ≤ d.length := by simp
+        have := ih r1' r2' (pos + adv) b' (d.drop adv) f1 f2 (t :: acc) hr1 hr2 (by omega) (by omega)
+        refine ⟨this.1, this.2.1, ?_⟩
+        intro he
+        have h3 := this.2.2 he
+        have e : pos + adv + (d.drop adv).length = pos + d.length := by simp; omega
+        rw [← e]; exact h3
+      | end_ b' =>
+        obtain ⟨r1', e1, hr1⟩ := o1
+        obtain ⟨r2', e2, hr2⟩ := o2
+        simp only [lexAll, next, e1, e2]
+        exact ⟨by simp, by simp, fun _ => ⟨hr1.pos, hr2.pos⟩⟩
+      | eof a b' =>
+        obtain ⟨r1', e1, _⟩ := o1
+        obtain ⟨r2', e2, _⟩ := o2
+        simp only [lexAll, next, e1, e2]
+        exact ⟨by simp, by simp, fun h => by simp at h⟩
+
+end Jomini.TextReader
